@@ -121,6 +121,8 @@ def corpus(prop):
         out.append((p, True, "refactor2:" + os.path.basename(p)[:-5]))
     for p in sorted(glob.glob(os.path.join(VERIF, "refactors", "round3", "%s-r*.diff" % prop))):
         out.append((p, True, "refactor3:" + os.path.basename(p)[:-5]))
+    for p in sorted(glob.glob(os.path.join(VERIF, "refactors", "round4", "%s-r*.diff" % prop))):
+        out.append((p, True, "refactor4:" + os.path.basename(p)[:-5]))
     for dname in sorted(glob.glob(os.path.join(VERIF, "seeded", "%s*" % prop))):
         p = os.path.join(dname, "patch.diff")
         if os.path.exists(p):
